@@ -22,6 +22,16 @@ func init() {
 			"		if uint64(len(buf)) < uint64(l) {\n			return fmt.Errorf(\"not enough bytes for setup option\")", "		if len(buf) < int(l) {\n			return fmt.Errorf(\"not enough bytes for setup option\")", "C32.slice_guard"},
 		Mutant{"C07", "clone-shares-scalar-pointers", "internal/conf/conf.go",
 			"		newPtr := reflect.New(rv.Elem().Type())\n", "		if rv.Elem().Kind() == reflect.String {\n			return rv\n		}\n		newPtr := reflect.New(rv.Elem().Type())\n", "C07.clone_independent"},
+		Mutant{"C09", "env-replaces-whole-path-entry", "internal/conf/optional_path.go",
+			"	if p.Values == nil {\n		p.Values = newOptionalPathValues()\n	}\n	return env.Load(prefix, p.Values)", "	p.Values = newOptionalPathValues()\n	return env.Load(prefix, p.Values)", "C09.env_preserves_file_values"},
+		Mutant{"C10", "nonce-guard-too-small", "internal/conf/decrypt/decrypt.go",
+			"	if len(enc) < 24 {", "	if len(enc) < 16 {", "C10.P4c.Decrypt"},
+		Mutant{"C15", "reload-fast-path-on-count", "internal/core/path_manager.go",
+			"	// process existing paths\n", "	if len(confsToRecreate) == 0 && len(confsToReload) == 0 && len(newPaths) == len(pm.pathConfs) {\n		pm.pathConfs = newPaths\n		return\n	}\n\n	// process existing paths\n", "C15.reload.all_examined"},
+		Mutant{"C35", "parameters-preallocated-from-wire-count", "internal/protocols/moq/parameter/parameter.go",
+			"	for range uint64(count) {\n		var typeDelta varint.Varint", "	if count > 0 {\n		*p = make(Parameters, 0, count)\n	}\n\n	for range uint64(count) {\n		var typeDelta varint.Varint", "C35.moq_decode.alloc_bound"},
+		Mutant{"C40", "reader-published-before-addreader", "internal/servers/webrtc/session.go",
+			"	res.Stream.AddReader(r)\n	defer res.Stream.RemoveReader(r)\n\n	s.mutex.Lock()\n	s.reader = r\n	s.mutex.Unlock()\n", "	s.mutex.Lock()\n	s.reader = r\n	s.mutex.Unlock()\n\n	res.Stream.AddReader(r)\n	defer res.Stream.RemoveReader(r)\n", "C40.publish_after_init"},
 		Mutant{"C12", "clone-interface-not-recursed", "internal/conf/conf.go",
 			"		newIface.Set(deepClone(rv.Elem()))", "		newIface.Set(rv.Elem())", "C12.clone_independent"},
 	)
@@ -134,4 +144,66 @@ func c25FinalPTS(c *Ctx, p *Prog) {
 		}
 	}
 	c.Floor("C25.users.final_pts", n, 1)
+}
+
+// c10LenLowerBound: the minimal length of value d implied by a branch literal
+// of the recognised shapes (len(d) < K false, K < len(d), len(d) == K,
+// len(d) == 0 false, d == "" false). known=false for other shapes.
+func c10LenLowerBound(l Lit, d string) (lb int64, known bool) {
+	ld := "len(" + d + ")"
+	num := func(s string) (int64, bool) {
+		n := int64(0)
+		if s == "" {
+			return 0, false
+		}
+		for _, ch := range s {
+			if ch < '0' || ch > '9' {
+				return 0, false
+			}
+			n = n*10 + int64(ch-'0')
+		}
+		return n, true
+	}
+	a := strings.TrimSuffix(strings.TrimPrefix(l.Atom, "("), ")")
+	if i := strings.Index(a, " < "); i >= 0 {
+		x, y := a[:i], a[i+3:]
+		if x == ld {
+			if k, ok := num(y); ok {
+				if !l.Pos {
+					return k, true // !(len < K)  =>  len >= K
+				}
+				return 0, true // len < K gives no lower bound
+			}
+		}
+		if y == ld {
+			if k, ok := num(x); ok {
+				if l.Pos {
+					return k + 1, true // K < len
+				}
+				return 0, true
+			}
+		}
+		return 0, false
+	}
+	if i := strings.Index(a, " == "); i >= 0 {
+		x, y := a[:i], a[i+4:]
+		if x == ld {
+			if k, ok := num(y); ok {
+				if l.Pos {
+					return k, true
+				}
+				if k == 0 {
+					return 1, true // len != 0
+				}
+				return 0, true
+			}
+		}
+		if x == d && y == `""` {
+			if !l.Pos {
+				return 1, true
+			}
+			return 0, true
+		}
+	}
+	return 0, false
 }
